@@ -57,7 +57,9 @@ def oracle(g, env, inp, opts, has_ignore):
     # (a) parse_all <=> expr + StringEnd()
     pa = outcome(lambda: e.parse_string(inp, parse_all=True).as_list())
     plain = outcome(lambda: e.parse_string(inp).as_list())
-    se = outcome(lambda: (e + pp.StringEnd()).parse_string(inp).as_list())
+    # parse_with_tabs is a setting of the root element: the composed root must parse the same string as `e` does
+    comp = (lambda x: x.parse_with_tabs()) if e.keepTabs else (lambda x: x)
+    se = outcome(lambda: comp(e + pp.StringEnd()).parse_string(inp).as_list())
     if pa[0] == "div" or se[0] == "div" or plain[0] == "div":
         return None
     if (pa[0] == "ok") != (se[0] == "ok"):
@@ -86,8 +88,8 @@ def oracle(g, env, inp, opts, has_ignore):
                 bad.append(("scan-range", "match (%d,%d) outside the parsed string of length %d" % (st, en, len(parsed))))
             if not ov and st < prev_end:
                 bad.append(("scan-overlap", "matches overlap: start %d < previous end %d" % (st, prev_end)))
-            if st < prev_start:
-                bad.append(("scan-order", "starts not increasing: %d after %d" % (st, prev_start)))
+            if st <= prev_start:
+                bad.append(("scan-order", "match starts not strictly increasing: (%r,%d,%d) reported after a match starting at %d" % (t, st, en, prev_start)))
             d = outcome(lambda: (lambda r: (r[0], r[1].as_list()))(e._parse(parsed, st, callPreParse=False)))
             if d != ("ok", (en, t)):
                 bad.append(("scan-direct", "match (%r,%d,%d) but a direct parse at %d gives %r" % (t, st, en, st, d)))
